@@ -13,7 +13,9 @@ OWN = {'**text': {'LYRICS'}, '**dynam': {'DYNAMICS'}, '**dyn': {'DYNAMICS'}, '**
        '**mxhm': {'HARMONY', 'MHXM'}}
 STRUCT_ROOTS = ['STRUCTURAL', 'SIGNATURES', 'EMPTY', 'BARLINES', 'IMAGE_ANNOTATIONS', 'COMMENTS']
 STRUCT = set().union(*[cats.DESC_STAR[c] for c in STRUCT_ROOTS])
-RULE = ('Headers **text, **dynam, **dyn, **harm, **mxhm, **fing and eleven unknown ones (eight of them near-misses of known names such as **dynamics, **Text, **kernel) x four token corpora, each token '
+RULE = ('Enumerated: every header x (8 kinds of white space in front of / 4 behind 11 shared-structure texts) and four bounding boxes whose '
+        'page name contains a blank.  ' +
+        'Headers **text, **dynam, **dyn, **harm, **mxhm, **fing and eleven unknown ones (eight of them near-misses of known names such as **dynamics, **Text, **kernel) x four token corpora, each token '
         'imported by a long-lived importer of that type (so every token is also preceded by a random history) and by a '
         'fresh one: (1) structural tokens labelled by grammar alternative - every barline type, null tokens, clefs, key '
         'signatures, time signatures, meter symbols, staff and bounding-box interpretations - must be recognised '
@@ -244,8 +246,24 @@ def check_doc(case):
                   sample=out[0][2], key=[out[0][2], case['h2']], evals=2)
 
 
+PADS = [' ', '  ', '\x0c', '\u00a0', '\u2028', '\u3000', '\x0b', '\x85']
+STRUCTS = ['=2', '==', '=:|!|:', '.', '*', '*clefG2', '*M3/4', '*k[b-]', '*met(c)', '*staff1', '*xywh-1:1,2,30,40']
+SPACED_BBOXES = ['*xywh-page 3:10,20,300,40', '*xywh-f. 12v:1,2,3,4', '*xywh-IMG 0042.jpg:5,6,7,8', '*xywh- 7:1,1,2,2']
+
+
+def fixed_cases():
+    """enumerated rather than drawn (the random corpus meets them too rarely): shared structure behind / in front of every kind
+    of white space, under every header; bounding boxes whose page name contains a blank are shared structure like the others"""
+    for h in HEADS:
+        toks = [{'t': p_ + s_, 'kind': 'arbitrary'} for p_ in PADS for s_ in STRUCTS] + [{'t': s_ + p_, 'kind': 'arbitrary'} for p_ in PADS[:4] for s_ in STRUCTS]
+        for i in range(0, len(toks), 12):
+            yield {'head': h, 'toks': toks[i:i + 12]}
+        yield {'head': h, 'toks': [{'t': t, 'kind': 'struct', 'cat': 'BOUNDING_BOXES'} for t in SPACED_BBOXES]}
+
+
 def run(ctx):
     n = 500 if ctx.quick else 5000
+    ctx.check_all(fixed_cases(), check_tokens)
     ctx.run_hypothesis(token_cases(), check_tokens, max_examples=n, label='tokens')
     ctx.run_hypothesis(doc_cases(), check_doc, max_examples=max(60, n // 6), salt=1, label='documents')
     ctx.run_hypothesis(twin_cases(), check_twin, max_examples=max(60, n // 6), salt=2, label='twin-columns')
